@@ -48,6 +48,10 @@ RULES = [
     Rule('C02.M1', 'a remembered engine result is keyed by every input it was computed from', memo_keys_rule(('fpy2/number/engine/', 'fpy2/number/gmputils.py', 'fpy2/ops.py'), 'operands, precision and digit position'), 1, 'M'),
     Rule('C02.T1', 'RealEngine: ceil/floor/trunc/roundint = RTP/RTN/RTZ/RNA at n=-1; sub, fma composed of exact ops', E.t1_real_engine, 9, 'T'),
     Rule('C02.T2', 'RealEngine add/mul/div special-value arms equal the IEEE 754 tables', E.t2_real_specials, 48, 'T'),
+    # an operation on a rational operand gets its exact result from the real engine and hands it to `ctx.round`: the one
+    # rounding is `_round_prepare`'s, and a binary64 on the way to it is a second one
+    Rule('C02.F4', 'an exact rational result reaches the one rounding without a machine double in between (= C06.F3, Context._round_prepare)',
+         lambda ctx: __import__('sa.props.c06', fromlist=['f3_no_double_detour']).f3_no_double_detour(ctx), 15, 'F'),
 ]
 
 from ..selftest import Mutant  # noqa: E402
